@@ -608,19 +608,15 @@ func BackSlice(v ssa.Value, visit func(ssa.Value) bool) {
 		case *ssa.UnOp:
 			w(x.X)
 			if x.Op == token.MUL {
-				if a, ok := x.X.(*ssa.Alloc); ok {
-					for _, r := range *a.Referrers() {
-						if st, ok := r.(*ssa.Store); ok && st.Addr == a {
-							w(st.Val)
-						}
+				if a := CellOf(x); a != nil {
+					for _, st := range cellStores(a) {
+						w(st.Val)
 					}
 				}
 			}
 		case *ssa.Alloc:
-			for _, r := range *x.Referrers() {
-				if st, ok := r.(*ssa.Store); ok && st.Addr == x {
-					w(st.Val)
-				}
+			for _, st := range cellStores(x) {
+				w(st.Val)
 			}
 		case *ssa.Call:
 			for _, a := range x.Call.Args {
@@ -698,19 +694,114 @@ func ClosureFn(v ssa.Value) *ssa.Function {
 	return nil
 }
 
-// IsParamFuncCall reports whether c calls a value that is a parameter (or free
-// variable bound to a parameter) of function type: "the user callback".
+// cellStores returns every store to the local cell a, including stores made
+// through free variables of closures that capture it.
+func cellStores(a *ssa.Alloc) []*ssa.Store {
+	var out []*ssa.Store
+	var visit func(addr ssa.Value)
+	visit = func(addr ssa.Value) {
+		refs := addr.Referrers()
+		if refs == nil {
+			return
+		}
+		for _, r := range *refs {
+			switch x := r.(type) {
+			case *ssa.Store:
+				if x.Addr == addr {
+					out = append(out, x)
+				}
+			case *ssa.MakeClosure:
+				cf, _ := x.Fn.(*ssa.Function)
+				if cf == nil {
+					continue
+				}
+				for i, b := range x.Bindings {
+					if b == addr && i < len(cf.FreeVars) {
+						visit(cf.FreeVars[i])
+					}
+				}
+			}
+		}
+	}
+	visit(a)
+	return out
+}
+
+// CellOf: if v is a load `*x` where x is a local cell (Alloc) or a free
+// variable bound (transitively) to one, returns the cell.
+func CellOf(v ssa.Value) *ssa.Alloc {
+	u, ok := v.(*ssa.UnOp)
+	if !ok || u.Op != token.MUL {
+		return nil
+	}
+	x := u.X
+	for {
+		switch y := x.(type) {
+		case *ssa.Alloc:
+			return y
+		case *ssa.FreeVar:
+			x = FreeVarBinding(y)
+			if x == nil {
+				return nil
+			}
+		default:
+			return nil
+		}
+	}
+}
+
+// Through resolves loads of single-assignment cells (captured parameters and
+// locals that are stored exactly once) to the stored value.
+func Through(v ssa.Value) ssa.Value {
+	for i := 0; i < 8; i++ {
+		c := CellOf(v)
+		if c == nil {
+			return v
+		}
+		st := cellStores(c)
+		if len(st) != 1 {
+			return v
+		}
+		v = st[0].Val
+	}
+	return v
+}
+
+// IsParamFuncCall reports whether c calls a value that is a parameter of
+// function type (possibly captured by a closure): "the user callback".
 func IsParamFuncCall(c *ssa.CallCommon) bool {
 	if c.IsInvoke() {
 		return false
 	}
-	switch c.Value.(type) {
+	v := Through(c.Value)
+	switch x := v.(type) {
 	case *ssa.Parameter:
-		return true
+		_, ok := x.Type().Underlying().(*types.Signature)
+		return ok
 	case *ssa.FreeVar:
-		b := FreeVarBinding(c.Value.(*ssa.FreeVar))
+		b := FreeVarBinding(x)
 		_, ok := b.(*ssa.Parameter)
 		return ok
+	}
+	return false
+}
+
+// SameSource reports whether two SSA values denote the same runtime value as
+// far as simple syntactic aliasing can tell: identical values, two loads of
+// the same single-assignment cell, or reads of the same field of SameSource
+// bases (no intervening-store reasoning: callers use it for immutable slots).
+func SameSource(x, y ssa.Value) bool {
+	x, y = Through(Peel(x)), Through(Peel(y))
+	if x == y {
+		return true
+	}
+	if cx, cy := CellOf(x), CellOf(y); cx != nil && cx == cy {
+		return true
+	}
+	fx, bx := FieldRead(x)
+	fy, by := FieldRead(y)
+	if fx != nil && SameField(fx, fy) {
+		return SameSource(bx, by)
 	}
 	return false
 }
